@@ -369,29 +369,37 @@ def api_stage(res, rng, tier):
     warnings.filterwarnings("ignore")
     from pynndescent import NNDescent
     from harness import api, oracles
-    metrics = ["euclidean", "cosine"] if tier == "quick" else ["euclidean", "cosine", "hellinger", "jaccard", "dot"]
-    for metric in metrics:
+    # (metric, data kind): every surrogate's own glue - the normalising dot with queries that are NOT unit length, and a CSR index
+    # whose surrogate / correction pair comes from the sparse table
+    metrics = [("euclidean", "dense32"), ("cosine", "dense32"), ("dot", "dense32"), ("jaccard", "csr")] if tier == "quick" else \
+        [("euclidean", "dense32"), ("cosine", "dense32"), ("hellinger", "dense32"), ("jaccard", "dense32"), ("dot", "dense32"),
+         ("jaccard", "csr"), ("cosine", "csr"), ("hellinger", "csr"), ("euclidean", "csr"), ("true_angular", "dense32")]
+    for metric, kind in metrics:
         n, k, dim = 120, 6, 5
-        X, L = api.gen_dataset(rng, metric, "dense32", n, dim, zero_rows=(metric in ("cosine", "jaccard")))
-        U, UL = api.gen_dataset(rng, metric, "dense32", 25, dim)
-        Q, QL = api.gen_dataset(rng, metric, "dense32", 10, dim)
-        case = {"metric": metric, "n": n, "k": k, "history": ["build", "neighbor_graph", "update(xs_fresh)", "neighbor_graph", "query"]}
-        key = "surrogate:api:%s" % metric
+        X, L = api.gen_dataset(rng, metric, kind, n, dim, zero_rows=(metric in ("cosine", "jaccard") and kind == "dense32"))
+        U, UL = api.gen_dataset(rng, metric, kind, 25, dim)
+        Q, QL = api.gen_dataset(rng, metric, kind, 10, dim)
+        if metric == "dot":
+            Q = (Q * np.float32(0.25)).astype(np.float32); QL = QL * 0.25          # |q| != 1: the search must normalise by |q|, not |q|^2
+        case = {"metric": metric, "kind": kind, "n": n, "k": k, "history": ["build", "neighbor_graph", "update(xs_fresh)", "neighbor_graph", "query"]}
+        key = "surrogate:api:%s%s" % (metric, "" if kind == "dense32" else ":" + kind)
         try:
             idx = NNDescent(X, metric=metric, n_neighbors=k, random_state=int(rng.integers(10 ** 6)))
             g = idx.neighbor_graph
             probs = oracles.graph_problems(L, k, metric, {}, g[0], g[1])
             if not probs:
-                idx.update(xs_fresh=U)
-                L2 = np.vstack([L, UL])
-                g = idx.neighbor_graph
-                probs = oracles.graph_problems(L2, k, metric, {}, g[0], g[1])
+                L2 = L
+                if kind == "dense32":                  # (update() is refused for sparse data)
+                    idx.update(xs_fresh=U)
+                    L2 = np.vstack([L, UL])
+                    g = idx.neighbor_graph
+                    probs = oracles.graph_problems(L2, k, metric, {}, g[0], g[1])
                 if not probs:
                     a = idx.query(Q, k=k)
                     probs = oracles.answer_problems(L2, QL, k, metric, {}, a[0], a[1])
         except Exception as e:  # noqa
             probs = [("exception", "%s: %s" % (type(e).__name__, str(e)[:200]))]
-        res.case(("api", metric, np.asarray(L).tobytes()), True, sample=case)
+        res.case(("api", metric, kind, np.asarray(L).tobytes()), True, sample=case)
         res.count("api_history_" + metric); res.traces += 1
         if probs:
             res.violation(key + ":" + probs[0][0], "reported distance is not correction(surrogate) = metric over build -> update -> query: %s" % probs[0][1], case)
